@@ -77,7 +77,8 @@ CHECKS = {
         text="Histories (initial tensor x up to 10 ops/moves/copies/state_dict round trips/freezes) run with the invariant "
              "armed at both dispatch levels: shape/dtype/device equal those of dequantize(), one code per element, dense "
              "packed payload, scale/zero-point layout for the declared axis, storage dtype = qtype's; moves/copies keep "
-             "codes and (cast) scales byte-identical.",
+             "codes and (cast) scales byte-identical. A directed section multiplies and divides per-tensor and per-axis "
+             "tensors of ranks 1-3 by every kind of scalar operand (numbers, 0-dim and one-element tensors).",
         note="Inner tensors are read through __tensor_flatten__. Grouped low-bit scale layout is checked on counts only."),
     "C07": dict(
         technique="runtime monitor with reference-model oracle: exact-arithmetic operand sets (bit-exact against the "
